@@ -241,7 +241,13 @@ PROPS["C01"] = {
     "variants": ["v1", "v2"],
     "lean": ["Gengo.Props.C01"],
     "level": "proof",
-    "level_text": "TODO",
+    "level_text": "Model of both parsers' walkType (get-or-create by name, mark-then-fill, alias rule, flattening rule, methods phase, v2 "
+                  "generics and alias unwrapping), of Universe.Type/Function/Variable/Constant/Package with the builtin import, and of "
+                  "declarations and package scans. Kernel-checked so far: the regenerated builtins tables bind every Go scalar to a type of "
+                  "the same Go type, share an object only between spellings of one type, and are complete; naming of anonymous types. The "
+                  "walk invariant (every object with a kind matches its Go node, references closed) is being ported from the prototype "
+                  "(proto/Walk2Inv.lean) to the full model. Complete canonical universe dumps of the real v1 and v2 loaders are compared with "
+                  "the model on generated programs, and an oracle walks go/types independently and compares every reported attribute.",
     "level_note": _UNI_NOTE,
     "rule": "well-typed multi-package programs (1..3 packages, 2..7 type declarations each: structs with tags/embedded/unexported fields and "
             "self references, defined types over basics/maps/slices/pointers/arrays/channels/functions/interfaces/other named types, methods "
@@ -250,8 +256,20 @@ PROPS["C01"] = {
             "loaded by the real parser, and the complete universes are compared. Distinct = distinct program.",
     "assumptions": ["type aliases (type A = B) are generated for v2 only", "one file per package for the in-memory v1 loader"],
 }
-PROPS["C06"] = dict(PROPS["C01"], lean=["Gengo.Props.C06"])
-PROPS["C20"] = dict(PROPS["C01"], lean=["Gengo.Props.C20"])
+PROPS["C06"] = dict(PROPS["C01"], lean=["Gengo.Props.C06"],
+    level_text="Kernel-checked on the universe model: lookups are idempotent (same object, state unchanged) and monotone (no existing "
+               "binding or object is ever changed) for types and for functions/variables/constants, two keys of the builtins table bound "
+               "to one Go variable resolve to one object whose content depends on the table only. The real universes are compared with the "
+               "model object by object, and an oracle checks on every program: identical named/basic types and identically spelled "
+               "anonymous types are one object, different Go types are never one object (known finding F7), nothing reachable is left "
+               "without a kind, repeated lookups and builtin singletons behave as stated.")
+PROPS["C20"] = dict(PROPS["C01"], lean=["Gengo.Props.C20"],
+    level_text="Kernel-checked on the model of the predicates over universe objects: a type reported assignable consists of builtin "
+               "scalars, defined types over them and structs of such at every depth (no pointer, map, slice, channel, function or interface "
+               "object anywhere); IsPrimitive holds exactly for builtin objects and defined types over them; no named struct is reported "
+               "anonymous; from the regenerated tables, kind Builtin is given to predeclared scalars only and to every one of them. The "
+               "predicate values of every object of the real universes are compared with the model, and an oracle compares them with "
+               "go/types (containment of reference kinds, types.Comparable for v2).")
 
 # properties not claimed, with the reason (kept current by hand)
 NOT_APPLICABLE = {}
